@@ -206,6 +206,21 @@ def r3(chk):
         wants = [Tx().expr(ast.parse(f"np.nan if {dct}[{pv}]['n'] == 0 else {dct}[{pv}]['tot'] / {dct}[{pv}]['n']", mode="eval").body),
                  Tx().expr(ast.parse(f"{dct}[{pv}]['tot'] / {dct}[{pv}]['n']", mode="eval").body)]
         ok = any(symx.equivalent(got, w)[0] for w in wants)
+    if not ok:
+        # the same thing said at once: self.tally_pool_means = {p: <mean of pool p> for p in tally_pools} (the canonical form of a
+        # local dict filled in a loop and published by one assignment)
+        for t, v, s_ in stores(stp):
+            if norm(t) == "self.tally_pool_means" and isinstance(v, ast.DictComp) and len(v.generators) == 1 and not v.generators[0].ifs:
+                pv = norm(v.generators[0].target)
+                if norm(v.key) != pv:
+                    continue
+                try:
+                    got = Tx().expr(v.value)
+                except symx.Unsupported:
+                    continue
+                wants = [Tx().expr(ast.parse(f"np.nan if {dct}[{pv}]['n'] == 0 else {dct}[{pv}]['tot'] / {dct}[{pv}]['n']", mode="eval").body),
+                         Tx().expr(ast.parse(f"{dct}[{pv}]['tot'] / {dct}[{pv}]['n']", mode="eval").body)]
+                ok = any(symx.equivalent(got, w)[0] for w in wants)
     chk.ob("C03.R3", W("Assorter.set_tally_pool_means"), "pool-mean=tot/n", ok,
            "the stored pool mean is tot/n of the same pool (nan only for an empty pool)", node=stp, strength="N")
 
